@@ -132,8 +132,18 @@ pub fn advance_secs(max: u32, cfg: &WorldCfg) -> BoxedStrategy<u32> {
     proptest::strategy::Union::new_weighted(opts).prop_map(move |s| s.min(max)).boxed()
 }
 
-pub fn op_strategy(w: &Weights, n_cas: usize, cfg: &WorldCfg) -> BoxedStrategy<Op> {
+pub fn op_strategy(w: &Weights, n_cas: usize, cfg: &WorldCfg, edges: &[(u8, u8)]) -> BoxedStrategy<Op> {
     let n = n_cas.max(1);
+    // (parent, child) pairs: mostly edges that the set-up created
+    let non_ta: Vec<(u8, u8)> = edges.iter().copied().filter(|e| e.0 != 0).collect();
+    let pair = move || -> BoxedStrategy<(u8, u8)> {
+        let random = (1u8..(n as u8 + 1), 0u8..n as u8).boxed();
+        if non_ta.is_empty() {
+            random
+        } else {
+            prop_oneof![5 => proptest::sample::select(non_ta.clone()), 1 => random].boxed()
+        }
+    };
     let mut opts: Vec<(u32, BoxedStrategy<Op>)> = Vec::new();
     let mut add = |wt: u32, s: BoxedStrategy<Op>| {
         if wt > 0 {
@@ -172,27 +182,23 @@ pub fn op_strategy(w: &Weights, n_cas: usize, cfg: &WorldCfg) -> BoxedStrategy<O
     );
     add(
         w.child_res,
-        (1u8..(n as u8 + 1), ca_idx(n), res_mask())
-            .prop_map(|(parent, child, res)| Op::ChildResources { parent, child, res })
-            .boxed(),
+        (pair(), res_mask()).prop_map(|((parent, child), res)| Op::ChildResources { parent, child, res }).boxed(),
     );
     add(
         w.suspend,
         prop_oneof![
-            (1u8..(n as u8 + 1), ca_idx(n)).prop_map(|(parent, child)| Op::ChildSuspend { parent, child }),
-            (1u8..(n as u8 + 1), ca_idx(n)).prop_map(|(parent, child)| Op::ChildUnsuspend { parent, child }),
+            pair().prop_map(|(parent, child)| Op::ChildSuspend { parent, child }),
+            pair().prop_map(|(parent, child)| Op::ChildUnsuspend { parent, child }),
         ]
         .boxed(),
     );
     add(
         w.child_remove,
-        (1u8..(n as u8 + 1), ca_idx(n)).prop_map(|(parent, child)| Op::ChildRemove { parent, child }).boxed(),
+        pair().prop_map(|(parent, child)| Op::ChildRemove { parent, child }).boxed(),
     );
     add(
         w.mapping,
-        (1u8..(n as u8 + 1), ca_idx(n), 0u8..3, 0u8..3)
-            .prop_map(|(parent, child, rcn, name)| Op::ChildMapping { parent, child, rcn, name })
-            .boxed(),
+        (pair(), 0u8..3, 0u8..3).prop_map(|((parent, child), rcn, name)| Op::ChildMapping { parent, child, rcn, name }).boxed(),
     );
     add(
         w.parent_remove,
@@ -277,7 +283,7 @@ pub fn cfg_strategy(disk: BoxedStrategy<bool>, wide_timing: bool) -> BoxedStrate
 /// Hierarchy set-up as operations: ca0 under the TA with (nearly) everything,
 /// further CAs under the TA or earlier CAs with masks derived from the
 /// parent's mask (mostly subsets, sometimes not), sometimes a second parent.
-pub fn setup_strategy(max_cas: usize) -> BoxedStrategy<(usize, Vec<Op>)> {
+pub fn setup_strategy(max_cas: usize) -> BoxedStrategy<(usize, Vec<Op>, Vec<(u8, u8)>)> {
     (1usize..=max_cas)
         .prop_flat_map(|n| {
             (
@@ -289,6 +295,7 @@ pub fn setup_strategy(max_cas: usize) -> BoxedStrategy<(usize, Vec<Op>)> {
         .prop_map(|(n, raws, root_mask)| {
             let mut ops = Vec::new();
             let mut masks: Vec<u16> = Vec::new();
+            let mut edges: Vec<(u8, u8)> = Vec::new();
             for (i, (r1, r2, r3, psel, second)) in raws.into_iter().enumerate() {
                 ops.push(Op::CaAdd { ca: i as u8 });
                 // parent: 0 = ta, j+1 = ca j (j < i)
@@ -304,6 +311,7 @@ pub fn setup_strategy(max_cas: usize) -> BoxedStrategy<(usize, Vec<Op>)> {
                 }
                 masks.push(mask);
                 ops.push(Op::Attach { ca: i as u8, parent, res: mask });
+                edges.push((parent, i as u8));
                 ops.push(Op::Quiesce);
                 if i > 0 && second < 3 {
                     // second parent: another earlier CA or the TA
@@ -311,11 +319,12 @@ pub fn setup_strategy(max_cas: usize) -> BoxedStrategy<(usize, Vec<Op>)> {
                     if p2 != parent {
                         let p2mask = if p2 == 0 { 0x7fff } else { masks[p2 as usize - 1] };
                         ops.push(Op::Attach { ca: i as u8, parent: p2, res: p2mask & (r2 | r3) });
+                        edges.push((p2, i as u8));
                         ops.push(Op::Quiesce);
                     }
                 }
             }
-            (n, ops)
+            (n, ops, edges)
         })
         .boxed()
 }
@@ -327,8 +336,8 @@ pub fn wcase_strategy(
     ops_range: std::ops::Range<usize>,
 ) -> BoxedStrategy<WCase> {
     (cfg, setup_strategy(max_cas), any::<u16>())
-        .prop_flat_map(move |(cfg, (n, setup), key_start)| {
-            let ops = vec(op_strategy(&weights, n, &cfg), ops_range.clone());
+        .prop_flat_map(move |(cfg, (n, setup, edges), key_start)| {
+            let ops = vec(op_strategy(&weights, n, &cfg, &edges), ops_range.clone());
             (Just(cfg), Just(setup), Just(key_start), ops)
         })
         .prop_map(|(cfg, setup, key_start, mut ops)| {
